@@ -112,7 +112,7 @@ theorem fin_iff (k : Nat) (r : Ref) : r.fin k = true ↔ (r.rem.status.isSome = 
 theorem reading_sim (c : Case) (p : PSt) (r : Ref) (h : Sim c p r) (hph : r.phase = .running)
     (op : Op) (t : Option Nat) (hop : opTimeout op = some t) (sizes : List Nat) (val : TRes → Bytes → Bool)
     (hverr : ∀ tag buf, val (.err tag) buf = false)
-    (hval : ∀ r1 : RunSt, C03.Good r1.st → Z r1.st → r1.st.prompt = some (.lit (prompt c)) →
+    (hval : t ≠ some 0 → ∀ r1 : RunSt, C03.Good r1.st → Z r1.st → r1.st.prompt = some (.lit (prompt c)) →
       ReadRes val (obsOp op r1).1) :
     match Ref.reading (prompt c) t (proxyIO op sizes [] p).1 r val with
     | .ok r' => Sim c (proxyIO op sizes [] p).2 r'
@@ -138,7 +138,7 @@ theorem reading_sim (c : Case) (p : PSt) (r : Ref) (h : Sim c p r) (hph : r.phas
   have hm := read_mon (prompt c) r.since (prompt_ne c) r1 op hread hplain hg1 hmon1
   have hzz := reading_z r1 op t hop ht hz1
   have hk := ChanCase.keeps r1 op hg1 hopok
-  have hrr := hval r1 hg1 hz1 hprm1
+  have hrr := hval ht r1 hg1 hz1 hprm1
   unfold proxyIO
   have hns : (!p.slot) = false := by rw [hslot]; rfl
   simp only [hns, Bool.false_eq_true, if_false, hr1]
